@@ -169,7 +169,9 @@ def subscribe (sv : Server) (sid : Nat) (path : Bytes) (f : Option Filt) : Serve
               | some n =>
                 let oldM := match e.filter with | none => true | some g => g.eval n.data
                 let newM := match f with | none => true | some g => g.eval n.data
-                if oldM ≠ newM then nodeChangedAux sv sid (pathString v) n.data oldM else sv) sv
+                -- the client's view changes only if no OTHER subscription of the session matches the node
+                if oldM ≠ newM && !pmMatchesPath (pmRemove s.subs fix) v true n.data then
+                  nodeChangedAux sv sid (pathString v) n.data oldM else sv) sv
           else sv
         sv.updSess sid (fun s => { s with subs := pmPut s.subs fix f })
       | none =>
